@@ -2702,6 +2702,16 @@ func (s *swamp) CloneAndDeleteMatchingTreasures(beaconType BeaconType, order Bea
 		return nil, false, nil
 	}
 
+	if capPredicate != nil {
+		// Count Cap.Filter over the whole swamp, not only over the keys of
+		// the index beacon walked below (see capBudgetOverSwamp).
+		var exhausted bool
+		capPredicate, capMax, exhausted = s.capBudgetOverSwamp(capPredicate, capMax)
+		if exhausted {
+			return nil, true, nil
+		}
+	}
+
 	// Ensure the chosen beacon is built before scanning it.
 	switch beaconType {
 	case BeaconTypeCreationTime:
